@@ -1140,6 +1140,20 @@ def bl4(ctx, R):
                 return "fractions"
             if v == ("self", "seconds"):
                 return "seconds"
+            # in normal form (helpers inlined, record fields projected): a product with a 2**64-per-second constant is the fraction count
+            from .sym import collect as _coll
+
+            def is_scale_const(t):
+                val = t[1] if t[0] == "const" else (prog.class_const(fi.cls, t[1]) if t[0] == "self" and fi.cls is not None else None)
+                return isinstance(val, (int, float)) and not isinstance(val, bool) and any(
+                    abs(val - (2.0 ** 64) * 10.0 ** -k) <= 1e-6 * (2.0 ** 64) * 10.0 ** -k for k in (0, 3, 6, 9, 12))
+            if v[0] not in ("opaque", "loop", "mutated", "name", "attr"):
+                prods = _coll(v, lambda t: isinstance(t, tuple) and len(t) == 3 and t[0] == "binop" and t[1] == "*")
+                if any(is_scale_const(x) for pr in prods for x in pr[2] if isinstance(x, tuple) and x):
+                    return "fractions"
+                if prods == [] and _coll(v, lambda t: isinstance(t, tuple) and len(t) == 4 and t[0] == "call" and str(t[1]).endswith("timedelta64")
+                                         and len(t[2]) == 2 and t[2][1] == ("const", "s")):
+                    return "seconds"
             # how it is computed: scaled by a 2**64-per-second constant -> fractions; a count of whole seconds -> seconds
             scaled = False
             secs = False
